@@ -6,6 +6,11 @@ Line three.
 Line four {f()}.
 Line five. <>
 {f()} glued.
+Line six.
+# {f()}mark
+Line seven.
+Line eight. # tail {f()}
+Line nine.
 -> END
 
 === function f() ===
